@@ -43,6 +43,9 @@ type Case struct {
 	// Repoint: one long-lived handler; it was created and prepared for the neighbouring mailbox mbox2 and then
 	// pointed at the mailbox under test through its exported MBoxPath field (and prepared again)
 	Repoint bool `json:"repoint,omitempty"`
+	// Batch (process_inbound): the hostile message is handed over together with a harmless one that follows it in
+	// the same ProcessInbound call (the handler interface takes a batch)
+	Batch bool `json:"batch,omitempty"`
 }
 
 const mboxRel = "s/d1/d2/mbox"
@@ -285,6 +288,9 @@ func run(c Case) (sig, msg string, o outcome) {
 			key = "Mid"
 		}
 		spec.Msg = message(c.MID, key, c.Extra)
+		if c.Batch {
+			spec.Msg2 = message([]byte("BATCHOK00001"), "Mid", "")
+		}
 	case "set_sent":
 		o.placed = preplace(base, c.MID)
 	}
@@ -447,6 +453,7 @@ func genCase(t *rapid.T) Case {
 		c.Family += "+long-harmless-prefix"
 	}
 	c.Repoint = rapid.IntRange(0, 7).Draw(t, "repoint") == 0
+	c.Batch = c.Op == "process_inbound" && rapid.IntRange(0, 3).Draw(t, "batch") == 0
 	// the same hostile identifiers in the encodings a "helpful" decoding step would undo before the name is
 	// used (the mailbox decodes RFC 2047 words in subjects and attachment names, URLs are percent-decoded)
 	if c.Family != "benign" && c.Family != "long" && rapid.IntRange(0, 4).Draw(t, "encoded") == 0 {
@@ -511,6 +518,9 @@ func account(c Case, o outcome) {
 	}
 	harness.Eval()
 	cls, nt := midClasses(c.MID)
+	if c.Batch {
+		harness.Label("process_inbound:batch(hostile message followed by a harmless one)")
+	}
 	if c.Repoint {
 		harness.Label("history:handler-repointed-from-a-neighbouring-mailbox")
 		cls, nt = append(cls, "repointed-handler"), true
